@@ -394,6 +394,28 @@ func checkUnits(raw json.RawMessage) fw.Result {
 			res.Count("unit_px_value_not_found", 1)
 		}
 	}
+	// copy consistency: on a fresh computation, a Copy() of each observed style (taken before
+	// anything is read) must compute the same value for the declaration under test
+	ws2, err := buildWorlds(in.Docs)
+	if err != nil {
+		return fw.Result{Verdict: fw.Inconclusive, Msg: err.Error()}
+	}
+	for key, o := range vals {
+		var doc int
+		var tag string
+		fmt.Sscanf(strings.Replace(key, "/", " ", 1), "%d %s", &doc, &tag)
+		st := ws2[doc].style(tag, "")
+		if st == nil {
+			res.Fail("no-style", "no computed style for "+tag+txt())
+			return res
+		}
+		cv := st.Copy().Get(p.Key())
+		if c := canon(cv); c != o.exact {
+			res.Fail("copy-differs", fmt.Sprintf("`%s`: Get(%s) on a Copy() of the style of %s (taken before anything was read) gives %s, the original gives %s%s", in.Decl, in.Prop, tag, c, o.exact, txt()))
+			return res
+		}
+		res.Count("copy_checks", 1)
+	}
 	if in.Inherit[0] != "" {
 		c, ok1 := readTag(0, in.Inherit[0])
 		par, ok2 := readTag(0, in.Inherit[1])
